@@ -537,6 +537,79 @@ fn judge_through_assembler(e: &E, l: &mut Local) {
     l.traces_validated += 2;
 }
 
+// ---- blocks whose expressions are separated by line breaks --------------------------------------------------
+
+/// one line of a block: an expression over the block-local `t` (None: the line is the assignment `t = 2`)
+const BLOCK_LINES: &[&str] = &["1 + 2", "-3", "4 - 1", "!0x0f", "2 * 3", "(5)", "t = 2", "t", "-t", "t + 1", "+4", "4 -1"];
+const BLOCK_SEPS: &[&str] = &["\n", ", ", ",\n", " \n "];
+
+/// A line break ends an expression exactly like a comma does: the block's value is the value of its last line, each
+/// line evaluated on its own (`1 + 2` followed by `-3` on the next line is two expressions, not `1 + 2 - 3`).
+fn judge_block_lines(seq: &[usize], sep: usize, wrap: usize, l: &mut Local) {
+    let mut t: Option<Z> = None;
+    let mut last: Result<Option<Z>, ()> = Ok(None);
+    for i in seq {
+        let line = BLOCK_LINES[*i];
+        if line == "t = 2" {
+            t = Some(Z::from(2));
+            // the value of an assignment itself is not stated: a block ending in one gets no verdict
+            last = last.map(|_| None);
+            continue;
+        }
+        let Ok(tree) = crate::refparse::parse_all(line) else {
+            // `+4`: no unary plus in the language: the block is an error whatever surrounds it
+            last = Err(());
+            continue;
+        };
+        let mut env = Env::new();
+        if let Some(tv) = &t {
+            env.set("t", RVal::Int(tv.clone(), None));
+        }
+        match eval(&tree, &env) {
+            Ok(RVal::Int(z, _)) => last = last.map(|_| Some(z)),
+            Err(RErr::Unspec(_)) => {
+                l.unspecified += 1;
+                return;
+            }
+            _ => last = Err(()),
+        }
+    }
+    let body = seq.iter().map(|i| BLOCK_LINES[*i]).collect::<Vec<_>>().join(BLOCK_SEPS[sep]);
+    let prog = match wrap {
+        0 => format!("#d8 {{\n{}\n}}\n", body),
+        1 => format!("#fn f() => {{\n{}\n}}\n#d8 f()\n", body),
+        _ => format!("#ruledef\n{{\n    r => {{\n{}\n}}`8\n}}\nr\n", body),
+    };
+    // a line beginning with `+` is not an expression; in the comma-separated renderings `4 -1` stays one expression
+    let expect: Result<String, ()> = match &last {
+        Ok(Some(z)) if *z >= Z::from(-128) && *z < Z::from(256) => Ok(bits_of(z, 8)),
+        Ok(Some(_)) => return,
+        Ok(None) => return,
+        Err(()) => Err(()),
+    };
+    l.eval();
+    l.nontrivial(&(seq.to_vec(), sep, wrap));
+    l.class(if expect.is_ok() { "block-lines-value" } else { "block-lines-error" });
+    let obs = run::assemble_str(&prog, &run::Opts::default());
+    let bad = if obs.panicked.is_some() {
+        Some("panic")
+    } else {
+        match &expect {
+            Ok(b) => (!(obs.success() && obs.bits == *b)).then_some("block does not have the value of its last line"),
+            Err(()) => (!obs.failure()).then_some("ill-formed block accepted"),
+        }
+    };
+    if let Some(b) = bad {
+        l.violation(Violation {
+            property: ID,
+            key: format!("block-lines:{}", b),
+            what: format!("{}: {}", b, prog.replace('\n', " / ")),
+            case: json!({"family": "block-lines", "program": prog, "expected": match &expect { Ok(b) => json!({"bits": b}), Err(()) => json!("error") }, "observed": obs.summary()}),
+        });
+    }
+    l.traces_validated += 1;
+}
+
 // ---- trees over typed rule arguments (negative values with a size) ---------------------------------------
 
 /// `t {x: s8}, {y: i8} => 0xa5 @ (<tree>)`16` called with concrete arguments: inside the production x and y
@@ -705,6 +778,19 @@ pub fn run(ctx: &Ctx) -> Report {
         judge_typed_tree(&e, pairs[(i % 2) as usize], l)
     }));
 
+    // C2b: blocks of 1..3 lines, every separator (line break, comma, both), as data, function body and rule body
+    {
+        let kb = BLOCK_LINES.len() as u64;
+        let per = seq_count(kb, 3);
+        rep.absorb(par_run(per * BLOCK_SEPS.len() as u64 * 3, |i, l| {
+            let d = decode(i, &[per, BLOCK_SEPS.len() as u64, 3]);
+            let seq = seq_decode(d[0], kb, 3);
+            if seq.is_empty() {
+                return;
+            }
+            judge_block_lines(&seq, d[1] as usize, d[2] as usize, l);
+        }));
+    }
     // C3: long FLAT expressions: n terms joined by one left-associative operator, terms carrying unary operators.
     //     Nothing nests here, so no nesting limit applies, however many operators the expression holds.
     //     (Only the minimal text is judged: full parenthesisation would nest n deep.)
